@@ -216,6 +216,43 @@ def check_pools(ctx):
     vs = build(SURFS[1])
     vs.sample_size = 6
     g0, f0 = voxelize.voxelize(vs, grid_size=(3, 3, 3), num_procs=1)
+    # documented options travel to the worker processes: voxel padding, and the sense of trim curves (custom data of the trims)
+    try:
+        from geomdl import tessellate as _tsl, BSpline as _B
+        gp1, fp1 = voxelize.voxelize(build(SURFS[1]), grid_size=(4, 4, 4), padding=0.1, num_procs=1)
+        for n_ in (2, 3):
+            gp, fp = voxelize.voxelize(build(SURFS[1]), grid_size=(4, 4, 4), padding=0.1, num_procs=n_)
+            if list(fp) != list(fp1):
+                ctx.violate("voxelize.voxelize", tg + ["padding=0.1", "n=%d" % n_], {"num_procs": n_, "padding": 0.1}, {"filled_single": sum(fp1), "filled_multi": sum(fp)})
+
+        def trimmed(rev):
+            srfs = []
+            for k_ in range(2):
+                s_ = build(SURFS[k_])
+                t_ = _B.Curve()
+                t_.degree = 1
+                t_.ctrlpts = [[0.25, 0.25], [0.75, 0.25], [0.75, 0.75], [0.25, 0.75], [0.25, 0.25]]
+                t_.knotvector = [0, 0, 0.25, 0.5, 0.75, 1, 1]
+                t_.sample_size = 5
+                t_.opt = ["reversed", rev]
+                s_.trims = [t_]
+                srfs.append(s_)
+            cc = multi.SurfaceContainer(srfs)
+            cc.sample_size = 9
+            cc.tessellator = _tsl.TrimTessellate()
+            return cc
+        for rev in (0, 1):
+            c1 = trimmed(rev)
+            c1.tessellate(num_procs=1)
+            ref_ = (len(c1.vertices), len(c1.faces))
+            for n_ in (2, 3):
+                cn = trimmed(rev)
+                cn.tessellate(num_procs=n_)
+                if (len(cn.vertices), len(cn.faces)) != ref_:
+                    ctx.violate("multi.SurfaceContainer.tessellate", tg + ["trimmed", "reversed=%d" % rev, "n=%d" % n_], {"num_procs": n_, "reversed": rev},
+                                {"single_process": ref_, "multi_process": (len(cn.vertices), len(cn.faces))})
+    except Exception as e:
+        ctx.violate("multiprocessing", tg + ["options", "raises"], {}, {"exception": repr(e)[:300]})
     for n in (2, 4, 8):
         for rep in range(2):
             ctx.count(("pool", n, rep), sample={"op": "num_procs", "n": n})
